@@ -488,22 +488,20 @@ harnesses! {
     // frames are rare, the carried position is far back; uniform spacing across chunk boundaries
     #[kani::unwind(8)]
     fn c07_ffi_slow(nd) {
-        let mut r = FastFixedIn::<f64>::new(0.1, 1.25, PolynomialDegree::Linear, 8, 1).unwrap();
-        let k = nd.u8();
-        // ratio in [0.08, 0.125]
-        let newr = (k as f64) / 1024.0;
-        nd.assume(r.set_resample_ratio(newr, false).is_ok());
+        // concrete slow ratio (1/r = 10 > 7): frames are rare and the carried position is far back
+        let mut r = FastFixedIn::<f64>::new(0.1, 1.0, PolynomialDegree::Linear, 7, 1).unwrap();
+        let newr = 0.1f64;
         let t = 1.0 / newr;
         let mut st = new_stream!();
         let mut tau = [0.0f64; 12];
         let mut c = 0;
-        while c < 6 {
-            let (ok, _, n) = call_line::<_, _, 8, 12>(nd, &mut r, &mut st, &mut tau);
+        while c < 8 {
+            let (ok, _, n) = call_line::<_, _, 7, 12>(nd, &mut r, &mut st, &mut tau);
             check!(ok, "C03.ok[base]");
             steady_checks!(r, st, tau, n, 12, newr, t, 8, "base");
             c += 1;
         }
-        cover!(st.have_last && st.produced >= 3, "several frames inside the stream observed");
+        check!(st.have_last && st.produced >= 4, "C07.harness_observed_enough_frames[base]");
         forget(r);
     }
 
